@@ -36,7 +36,7 @@ def build(prop, tier, seed, n, n_keys, samples, stats, wall, n_viol, n_known=0, 
     }
     cov = {k: v for k, v in cov.items() if v is not None}
     if extra:
-        cov.update(extra)
+        cov.update({k: v for k, v in extra.items() if v is not None})
     return {
         'property_id': prop.ID,
         'tier': tier,
